@@ -29,6 +29,10 @@ inductive Fault where
   | sliceBounds
   | closeOfClosedChannel
   | outOfFuel
+  | nilMapWrite          -- assignment to an entry of a nil map
+  | nilDeref             -- method call / field access through a nil pointer
+  | typeAssertion        -- `x.(T)` without `, ok` on a value of another dynamic type (or nil)
+  | divideByZero
   deriving Repr, DecidableEq
 
 instance {ε α : Type} [DecidableEq ε] [DecidableEq α] : DecidableEq (Except ε α)
